@@ -28,7 +28,7 @@ class Memory:
         return None
     # ---- raw cells
     def undef(s, size):
-        if s.e.concrete is not None: return 0
+        if s.e.concrete is not None or s.e.opts.get('undef_zero'): return 0
         s.nundef += 1
         return z3.BitVec('undef!%d' % s.nundef, size * 8)
     def load_byte(s, a):
@@ -40,8 +40,7 @@ class Memory:
                 if c[0] > back:
                     v = c[1]; sh = 8 * back
                     if isinstance(v, int): return (v >> sh) & 255
-                    if isinstance(v, GV): return mk_gv([(g, (x >> sh) & 255) for g, x in v.alts], 8)
-                    return z3.Extract(sh + 7, sh, v)
+                    return mapv(v, lambda x: (x >> sh) & 255, lambda x: z3.Extract(sh + 7, sh, x), 8)
                 break
         v = s.undef(1); s.mem[a] = (1, v); return v
     def load1(s, addr, size):
@@ -49,15 +48,37 @@ class Memory:
         if c is not None and c[0] == size: return c[1]
         if c is None and all((addr + i) not in s.mem for i in range(size)) and not s._covered(addr):
             v = s.undef(size); s.mem[addr] = (size, v); return v
-        parts = [s.load_byte(addr + i) for i in range(size)]
-        if all(isinstance(p, int) for p in parts):
+        # sub-range of one larger cell?
+        for back in range(0, 16):
+            cc = s.mem.get(addr - back)
+            if cc is not None:
+                if cc[0] >= back + size:
+                    v = cc[1]; sh = 8 * back; w = 8 * size
+                    return mapv(v, lambda x: (x >> sh) & ((1 << w) - 1), lambda x: z3.Extract(sh + w - 1, sh, x), w)
+                break
+        # assemble from the covering cells (little endian), keeping concreteness / guarded alternatives when possible
+        parts = []; a = addr
+        while a < addr + size:
+            cc = s.mem.get(a)
+            if cc is not None and a + cc[0] <= addr + size: parts.append((a - addr, cc[0], cc[1])); a += cc[0]
+            else: parts.append((a - addr, 1, s.load_byte(a))); a += 1
+        if all(isinstance(p[2], int) for p in parts):
             out = 0
-            for i, p in enumerate(parts): out |= p << (8 * i)
+            for off, sz, v in parts: out |= v << (8 * off)
             return out
+        if True:
+            n = 1
+            for off, sz, v in parts: n *= len(v.alts) if isinstance(v, GV) else 1
+            if n <= MAXALT:
+                alts = [(True, 0)]
+                for off, sz, v in parts:
+                    alts = [(gand(g1, g2), (x | (y << (8 * off))) if isinstance(x, int) and isinstance(y, int) else None)
+                            for g1, x in alts for g2, y in alts_of(v)]
+                if all(x is not None for _, x in alts): return mk_gv(alts, 8 * size)
         e = None
-        for p in reversed(parts):
-            pz = Z(p, 8); e = pz if e is None else z3.Concat(e, pz)
-        return z3.simplify(e)
+        for off, sz, v in parts:
+            pz = Z(v, 8 * sz); e = pz if e is None else z3.Concat(pz, e)
+        return e
     def _covered(s, addr):
         for back in range(1, 16):
             c = s.mem.get(addr - back)
@@ -73,8 +94,7 @@ class Memory:
             v = c[1]; del s.mem[a]
             for i in range(c[0]):
                 if isinstance(v, int): s.mem[a + i] = (1, (v >> (8 * i)) & 255)
-                elif isinstance(v, GV): s.mem[a + i] = (1, mk_gv([(g, (x >> (8 * i)) & 255) for g, x in v.alts], 8))
-                else: s.mem[a + i] = (1, z3.Extract(8 * i + 7, 8 * i, v))
+                else: s.mem[a + i] = (1, mapv(v, lambda x, i=i: (x >> (8 * i)) & 255, lambda x, i=i: z3.Extract(8 * i + 7, 8 * i, x), 8))
     def store1(s, addr, size, val, guard):
         old = s.mem.get(addr)
         if old is not None and old[0] == size:
@@ -103,10 +123,8 @@ class Memory:
             if gg is not False: s.e.add_check(gg, '%s: access to dead/unallocated %s' % (what, r.name), 'mem')
         return True
     def ptr_alts(s, p, what):
-        al = alts_of(p)
-        if al is None:
-            al = deep_alts(p)
-        return al
+        if isinstance(p, int): return [(True, p)]
+        return deep_alts(p)
     def load(s, p, size, guard, what='load', check=True):
         res = None
         for g, a in s.ptr_alts(p, what):
